@@ -156,6 +156,12 @@ inductive Node
 
 abbrev Tree := List (PathK × Node)
 
+/-- the uid/gid of an installed node.  No backend applies the owner a tar header carries: `installAPKFiles`,
+`installRegularFile`, `writeOneFile`, `lazilyInstallAPKFiles` and tarfs `WriteHeader` / `writeHeader` never
+call `Chown` (regenerated fact `Generated.installChownCalls`), so every node a package installs is 0:0
+whatever the header (and the db record) says: F07e -/
+def nodeOwner (_ : Node) : Int × Int := (0, 0)
+
 def lookupT (t : Tree) (p : PathK) : Option Node := t.lookup p
 
 def setT (t : Tree) (p : PathK) (n : Node) : Tree := (p, n) :: t.filter (fun e => e.1 ≠ p)
